@@ -15,7 +15,7 @@ struct Pat {
     chunk: u16,
 }
 
-const KINDS: [&str; 13] = [
+const KINDS: [&str; 14] = [
     "sorted-append",
     "front-insertion",
     "middle-insertion",
@@ -29,6 +29,7 @@ const KINDS: [&str; 13] = [
     "nodes-built-on-worker-threads-interleaved",
     "every-k-th-created-node-of-one-thread",
     "nodes-created-while-the-thread-is-winding-down",
+    "thread-that-has-created-2^28-nodes",
 ];
 
 /// strides at which a low-discrepancy / arithmetic-progression priority sequence lines up with itself: Fibonacci and Lucas numbers,
@@ -96,7 +97,7 @@ fn run_pat_inner(pat: &Pat) -> CaseResult {
     st.size = n as u64;
     let mut rng = SplitMix(pat.seed as u64 ^ 0xC16);
     let mut t: Treap<Lt> = Treap::new();
-    let kind = pat.kind % 13;
+    let kind = pat.kind % 14;
     st.label(KINDS[kind as usize]);
     // intermediate checkpoints at 10^k so that a degenerate tree is reported at a small size
     let mut next_cp = 100usize;
@@ -311,6 +312,34 @@ fn run_pat_inner(pat: &Pat) -> CaseResult {
             }
             checkpoint(&last, m, pat, "treap K-1 of K grown in lock step", true)?;
         }
+        13 => {
+            // a very long-lived thread: 2^28 + 2^22 node creations (nearly all dropped at once). Kept: every 2^21-th created node
+            // (appended to one treap: creation indices congruent modulo a large power of two) and, in a second treap, 3000
+            // consecutive nodes created after the 2^28-th. Only run when asked for explicitly (n >= 2^28).
+            if n < (1 << 28) {
+                st.label("long-lived-pattern-skipped-below-2^28");
+                return Ok(st);
+            }
+            let total: usize = (1 << 28) + (1 << 22);
+            let mut late: Treap<Lt> = Treap::new();
+            let mut late_n = 0usize;
+            for i in 0..total {
+                if i % (1 << 21) == 5 {
+                    let node = Treap::from_item(Lt::new((i >> 8) as u32));
+                    t = Treap::merge(std::mem::replace(&mut t, Treap::new()), node);
+                    len += 1;
+                } else if i > (1 << 28) + 100 && late_n < 3000 {
+                    let node = Treap::from_item(Lt::new((i >> 8) as u32));
+                    late = Treap::merge(std::mem::replace(&mut late, Treap::new()), node);
+                    late_n += 1;
+                } else {
+                    // created and dropped at once (no allocation): only its priority draw matters
+                    std::hint::black_box(rlib_treap::TreapNode::new(Lt::new(0)).priority);
+                }
+            }
+            checkpoint(&late, late_n, pat, "3000 nodes created after the thread's 2^28-th creation", true)?;
+            st.label("thread-that-has-created-2^28-nodes");
+        }
         12 => {
             // nodes created from the destructor of another thread-local (registered before the thread's first node), i.e. while the
             // thread is winding down; the treap is sent out through a channel and judged here
@@ -364,7 +393,7 @@ fn run_pat_inner(pat: &Pat) -> CaseResult {
             }
         }
     }
-    let sh = checkpoint(&t, len, pat, "end", matches!(kind, 0 | 1 | 6 | 8 | 9 | 11 | 12))?;
+    let sh = checkpoint(&t, len, pat, "end", matches!(kind, 0 | 1 | 6 | 8 | 9 | 11 | 12 | 13))?;
     let _ = maxh.max(sh.height);
     if len >= 1000 {
         st.nontrivial = true;
@@ -383,7 +412,7 @@ fn real_main() {
     ctx.rule(
         "A case is an adversarial construction pattern (sorted appends, repeated front insertion, middle insertion, alternating ends, \
          split-and-swap rotations, remove/re-insert churn, concatenation of small treaps, random mix, ascending ordered insertion via \
-         split_by, chunks built on 2..n worker threads and merged, single nodes built on thousands of worker threads and merged column by column / in alternating direction / with a worker stride, every K-th created node of one thread for generated K and for Fibonacci / Lucas / power-of-two strides, a treap built while its thread winds down) with generated size, seed offset of the library's priority stream and chunk parameter, priorities drawn by the \
+         split_by, chunks built on 2..n worker threads and merged, single nodes built on thousands of worker threads and merged column by column / in alternating direction / with a worker stride, every K-th created node of one thread for generated K and for Fibonacci / Lucas / power-of-two strides, a treap built while its thread winds down, a thread that has already created 2^28 nodes) with generated size, seed offset of the library's priority stream and chunk parameter, priorities drawn by the \
          library. Oracle at 10^k checkpoints and at the end, from an iterative read-only walk over the public node fields: priorities heap-ordered on every edge in one direction for the whole tree (ties allowed), height <= \
          5*log2(n+1)+20. The C03-style small histories with library priorities add heap checks after every operation. Non-trivial = a \
          pattern instance with n >= 1000 (sizes staged 10^2..10^5 quick, ..10^6 thorough). Distinct = distinct pattern parameters.",
@@ -443,6 +472,10 @@ fn real_main() {
         // every K-th node of one thread's creation stream, for the strides where structured priority sequences line up with themselves
         let strided: Vec<Pat> = (0..STRIDES.len()).map(|i| Pat { kind: 11, n: 100_000, seed: 100 + i as u32, chunk: (3 * i + 1) as u16 }).collect();
         ctx.exhaustive("every-k-th-created-node", "treap-pattern", "K treaps grown in lock step on one thread for K in Fibonacci / Lucas numbers, powers of two and neighbours (40 strides), 600..1500 nodes each", false, strided, run_pat);
+        if !cfg!(debug_assertions) || ctx.thorough() {
+            // (the quick tier runs this one in the release build only: 2.7 * 10^8 creations)
+            ctx.exhaustive("thread-that-has-created-2^28-nodes", "treap-pattern", "2^28 + 2^22 creations on one thread; kept: every 2^21-th created node, and 3000 consecutive nodes created after the 2^28-th", false, vec![Pat { kind: 13, n: 1 << 28, seed: 9, chunk: 0 }], run_pat);
+        }
         let exits = vec![Pat { kind: 12, n: 2000, seed: 1, chunk: 0 }, Pat { kind: 12, n: 2000, seed: 2, chunk: 1 }, Pat { kind: 12, n: 300, seed: 3, chunk: 1 }];
         ctx.exhaustive("nodes-created-at-thread-exit", "treap-pattern", "a treap built from the destructor of another thread-local while the thread winds down (priority source used before / never used before)", false, exits, run_pat);
     }
